@@ -128,10 +128,8 @@ Proof.
       + cbn [rbind] in Es. rewrite (IH acc1 _ _ e1 bd1 Wt Es Hf).
         rewrite merge_keywise by exact Wd. reflexivity.
       + destruct (env_get (S_ "notify") (merge e0 (m_env_export d))) as [[s|l]|] eqn:Eg; cbn [rbind] in Es.
-        * subst acc1. exfalso. clear -Hf.
-          assert (P : forall l0, fold_left step l0 (Panic 2) = Panic 2).
-          { intros l0. induction l0 as [|x t0 IH0]; [reflexivity|]. cbn [fold_left]. unfold step at 2. cbn [rbind]. exact IH0. }
-          rewrite P in Hf. discriminate.
+        * rewrite (IH acc1 _ _ e1 bd1 Wt Es Hf). rewrite env_get_insert, Hk.
+          rewrite merge_keywise by exact Wd. reflexivity.
         * rewrite (IH acc1 _ _ e1 bd1 Wt Es Hf). rewrite env_get_insert, Hk.
           rewrite merge_keywise by exact Wd. reflexivity.
         * rewrite (IH acc1 _ _ e1 bd1 Wt Es Hf). rewrite env_get_insert, Hk.
